@@ -26,7 +26,7 @@ RULE = (
 )
 TIERS = {"quick": {"shards": 8, "n": 600, "budget_s": 220}, "thorough": {"shards": 16, "n": 6000, "budget_s": 2700}}
 FLOOR = {"quick": 300, "thorough": 10000}
-REQUIRED_LABELS = {"quick": ["pos:default", "pos:type", "pos:doc", "pos:decorator", "pos:module-level", "api:doctrans", "api:sync", "api:gen", "api:parsers", "control:input-eval-seen", "control:prepend-seen"], "thorough": []}
+REQUIRED_LABELS = {"quick": ["pos:default", "pos:type", "pos:doc", "pos:decorator", "pos:module-level", "api:doctrans", "api:sync", "api:gen", "api:parsers", "api:routes", "control:input-eval-seen", "control:prepend-seen"], "thorough": []}
 ASSUMPTIONS = [
     "the monitor sees Python-level audit events (exec, import, open, os.*, subprocess.*, socket.*, ctypes.*); code executed without raising an audit event would be invisible (none known in CPython 3.12 for these paths)",
     "code compiled from a STRING and executed is acceptable only when it is a pure expression lookup: no CALL / IMPORT / STORE / MAKE_FUNCTION instruction and no dunder name (the docstring parser's type-name probe)",
@@ -53,7 +53,7 @@ def init_worker(ctx):
     _DIR["mods"] = d
     for m in SENT_MODS:
         with open(os.path.join(d, m + ".py"), "w") as f:
-            f.write("import builtins\nbuiltins.__vp_sentinel_imported__ = getattr(builtins, '__vp_sentinel_imported__', []) + [%r]\n" % m)
+            f.write("import builtins\nbuiltins.__vp_sentinel_imported__ = getattr(builtins, '__vp_sentinel_imported__', []) + [%r]\nx = 1\n\n\nclass K(object):\n    pass\n" % m)
     sys.path.append(d)
     monitor.install()
     import atexit
@@ -317,7 +317,69 @@ def api_sync_properties(case, d):
     return {o}
 
 
-APIS = {"parsers": api_parsers, "doctrans": api_doctrans, "sync": api_sync, "gen": api_gen, "sync_properties": api_sync_properties}
+YAML_TAGS = [
+    "!!python/object/apply:os.system ['touch {sentfile}']",
+    "!!python/object/apply:builtins.__vp_pwn__ []",
+    "!!python/name:vp_sentinel_mod_0.x",
+    "!!python/module:vp_sentinel_mod_1",
+    "!!python/object/apply:os.mkdir ['{sentfile}']",
+    "!!python/object/new:vp_sentinel_mod_0.K []",
+    "!!python/object/apply:subprocess.call [['touch', '{sentfile}']]",
+]
+
+
+def api_routes(case, d):
+    """route docstrings carry a ```yml block that the OpenAPI parser loads: tagged YAML must stay inert"""
+    import hashlib
+
+    tag = YAML_TAGS[int(hashlib.sha1(case["payload"].encode()).hexdigest(), 16) % len(YAML_TAGS)].format(sentfile=case["sentfile"])
+    route = (
+        '@rest_api.get("/api/config/:key")\n'
+        "def read(key):\n"
+        '    """\n'
+        "    Find one `Config` or error\n\n"
+        "    ```yml\n"
+        "    responses:\n"
+        "      '200':\n"
+        "        description: A `Config` object.\n"
+        "        x-handler: %s\n"
+        "        content:\n"
+        "          application/json:\n"
+        "            schema:\n"
+        "              $ref: ```Config```\n"
+        "    x-extra: %s\n"
+        "    ```\n\n"
+        "    :param key: The primary key of `Config`\n"
+        "    :type key: ```str```\n\n"
+        "    :return: Found `Config`\n"
+        "    :rtype: ```dict```\n"
+        '    """\n'
+        "    return {}\n"
+    ) % (tag, tag)
+    model = 'class Config(Base):\n    """\n    The Config.\n    """\n    __tablename__ = "config_tbl"\n    key = Column(String, doc="the key", primary_key=True)\n'
+    rp, mp = os.path.join(d, "routes.py"), os.path.join(d, "models.py")
+    open(rp, "w").write("from bottle import Bottle\n\nrest_api = Bottle()\n\n\n" + route)
+    open(mp, "w").write(model)
+    import cdd.compound.openapi.gen_openapi
+    import cdd.routes.parse.bottle
+
+    try:
+        cdd.routes.parse.bottle.bottle(ast.parse(route).body[0])
+    except Exception:
+        pass
+    try:
+        cdd.compound.openapi.gen_openapi.openapi_bulk(app_name="rest_api", model_paths=[mp], routes_paths=[rp])
+    except Exception:
+        pass
+    try:
+        cdd.__main__.main(["openapi", "--app-name", "rest_api", "--model-paths", mp, "--routes-paths", rp])
+    except BaseException as e:
+        if isinstance(e, (core.CaseTimeout, KeyboardInterrupt)):
+            raise
+    return set()
+
+
+APIS = {"routes": api_routes, "parsers": api_parsers, "doctrans": api_doctrans, "sync": api_sync, "gen": api_gen, "sync_properties": api_sync_properties}
 BAD_OPS = ("CALL", "IMPORT_NAME", "IMPORT_FROM", "STORE_", "MAKE_FUNCTION", "DELETE_", "LOAD_BUILD_CLASS", "SETUP_", "YIELD", "RAISE")
 
 
